@@ -162,6 +162,8 @@ def main(argv=None):
     known_keys = {f["key"]: f for f in known.get("findings", []) if f["property"] == prop}
     viol_lines, known_lines = [], []
     replay_dir = os.path.join(core.VERIF, "replay", prop)
+    if args.only_shard is None:
+        shutil.rmtree(replay_dir, ignore_errors=True)  # witnesses of earlier runs would be mistaken for this run's
     for key, v in sorted(m["violations"].items()):
         if key in known_keys:
             known_lines.append(
